@@ -236,3 +236,63 @@ Theorem unrepaired_put_refuted_stream :
   | None => False
   end.
 Proof. vm_compute. split; reflexivity. Qed.
+
+(* the theorems applied to the instance: every hypothesis is discharged on it *)
+Example no_poison_applies : forall s0 sn tr,
+  open_new (kind_of 1) (ex_opts false) false [] ex_faults = Ok s0 ->
+  frun dec_header_canon 1 s0 ex_ops = (sn, tr) ->
+  wf_final (ws_file sn) = Some ([], [(ex_c2, [x62])]).
+Proof.
+  intros s0 sn tr Hopen Hrun.
+  assert (Hack : acked (ex_opts false) false [] ex_ops (map obs_of tr) = [(ex_c2, [x62])]).
+  { vm_compute in Hopen. inversion Hopen; subst s0. vm_compute in Hrun. inversion Hrun; subst. vm_compute. reflexivity. }
+  rewrite <- Hack.
+  apply (no_poison dec_header_canon 1 (ex_opts false) false [] ex_faults [FPut ex_c1 [x61]; FPut ex_c2 [x62]] FFinalize s0 sn tr).
+  - exact ex_hdr_ok.
+  - reflexivity.
+  - exact ex_small.
+  - exact Hopen.
+  - exact Hrun.
+  - reflexivity.
+  - vm_compute in Hopen. inversion Hopen; subst s0. vm_compute in Hrun. inversion Hrun; subst. reflexivity.
+  - change ([FPut ex_c1 [x61]; FPut ex_c2 [x62]] ++ [FFinalize]) with ex_ops. rewrite Hack. vm_compute. reflexivity.
+Qed.
+
+Lemma ex_fits v1 : base_fits (ex_opts v1).
+Proof. vm_compute. reflexivity. Qed.
+
+Example failed_put_applies : forall s0 s' out,
+  open_new (kind_of 0) (ex_opts true) false [] [None; None; None; Some 3] = Ok s0 ->
+  fstep dec_header_canon 0 s0 (FPut ex_c1 [x61]) = (s', out) ->
+  is_err out = true /\ ws_idx s' = ws_idx s0 /\ ws_file s' = ws_file s0.
+Proof.
+  intros s0 s' out Hopen Hstep.
+  assert (He : is_err out = true).
+  { pose proof Hopen as Ho. vm_compute in Ho. inversion Ho; subst s0. clear Ho Hopen.
+    vm_compute in Hstep. inversion Hstep; subst. reflexivity. }
+  split; [exact He|].
+  assert (Hsm : blk_small (ex_c1, [x61])) by (vm_compute; reflexivity).
+  destruct (failed_put_changes_nothing dec_header_canon 0 (ex_opts true) false [] [None; None; None; Some 3] [] s0 s0 []
+              ex_c1 [x61] s' out (ex_fits true) ex_hdr_ok eq_refl (Forall_nil _) Hsm Hopen eq_refl Hstep He)
+    as [Hi [Hf|[Hk _]]].
+  - split; assumption.
+  - discriminate.
+Qed.
+
+Example v1_applies : forall s0 sn tr,
+  open_new (kind_of 2) (ex_opts true) false [] [None; None; None; Some 2] = Ok s0 ->
+  frun dec_header_canon 2 s0 [FPut ex_c1 [x61]; FPut ex_c2 [x62]] = (sn, tr) ->
+  wf_final (ws_file sn) = Some ([], [(ex_c2, [x62])]).
+Proof.
+  intros s0 sn tr Hopen Hrun.
+  assert (Hack : acked (ex_opts true) false [] [FPut ex_c1 [x61]; FPut ex_c2 [x62]] (map obs_of tr) = [(ex_c2, [x62])]
+                 /\ ws_finalized sn = false).
+  { pose proof Hopen as Ho. vm_compute in Ho. inversion Ho; subst s0. clear Ho Hopen.
+    vm_compute in Hrun. inversion Hrun; subst. vm_compute. split; reflexivity. }
+  destruct Hack as [Hack Hns]. rewrite <- Hack.
+  assert (Hsm : ops_small [FPut ex_c1 [x61]; FPut ex_c2 [x62]])
+    by (repeat constructor; unfold blk_small; vm_compute; reflexivity).
+  exact (v1_always_wellformed dec_header_canon 2 (ex_opts true) false [] [None; None; None; Some 2]
+           [FPut ex_c1 [x61]; FPut ex_c2 [x62]] s0 sn tr
+           (ex_fits true) ex_hdr_ok eq_refl Hsm Hopen Hrun eq_refl (fun _ => Hns)).
+Qed.
